@@ -51,6 +51,7 @@ type VerifOp struct {
 	Limits   []int         `json:"limits,omitempty"` // entities/related: limit per page, last one repeated
 	Latest   bool          `json:"latest,omitempty"`
 	Reverse  bool          `json:"reverse,omitempty"`
+	RejectIn string        `json:"reject_in,omitempty"` // txn: an entity with a nil reference is appended to THIS dataset's list; the whole transaction must be refused
 	ID       string        `json:"id,omitempty"`
 	Datasets []string      `json:"datasets,omitempty"`
 	Merge    bool          `json:"merge,omitempty"`
@@ -105,7 +106,12 @@ func verifPayload(ents []VerifEnt) []byte {
 		if e.Refs == nil {
 			e.Refs = map[string]interface{}{}
 		}
+		rec := e.Rec
+		e.Rec, e.Iid = 0, 0
 		j, _ := json.Marshal(e)
+		if rec != 0 { // as a hub-to-hub sync sends it: the body parser keeps "recorded" on the entity
+			j = append([]byte(fmt.Sprintf(`{"recorded":%d,`, rec)), j[1:]...)
+		}
 		b.WriteString(",")
 		b.Write(j)
 	}
@@ -276,6 +282,11 @@ func verifDoOp(h *verifHub, op VerifOp, idx int, times map[int]int64, tokens map
 				oo.Lens = append(oo.Lens, verifLen(e))
 			}
 			txn.DatasetEntities[s.Ds] = append(txn.DatasetEntities[s.Ds], ents...)
+			if op.RejectIn == s.Ds {
+				bad := NewEntity("ns3:poison", 0)
+				bad.References["ns3:r1"] = nil
+				txn.DatasetEntities[s.Ds] = append(txn.DatasetEntities[s.Ds], bad)
+			}
 		}
 		if err := store.ExecuteTransaction(txn); err != nil {
 			oo.Err = err.Error()
